@@ -26,9 +26,10 @@ Proof. exact get_matrix_whole_column. Qed.
 Theorem C02_cells_read_at_their_coordinates : forall w c r, fill (stream w) c r = lookup_cell w (S c) (S r).
 Proof. exact read_fetch. Qed.
 
-(* a reference to a sheet title that does not exist is rejected, never resolved to some other sheet *)
-Theorem C02_unknown_sheet_rejected : forall ts n c r, title_index ts n = Exc KeyError ->
-  handle ts {| a_t := TName n; a_c := c; a_r := r |} = Exc KeyError.
+(* a reference to a sheet title that does not exist is rejected with the library's cell exception (after fix 7ad1ad6), never resolved to
+   some other sheet *)
+Theorem C02_unknown_sheet_rejected : forall ts n c r, (forall i, ~ In (n, i) ts) ->
+  handle ts {| a_t := TName n; a_c := c; a_r := r |} = Exc E2PyclCell.
 Proof. exact unknown_sheet_rejected. Qed.
 Theorem C02_known_sheet_is_that_sheet : forall ts n i, title_index ts n = Ok i -> In (n, i) ts.
 Proof. exact title_index_sound. Qed.
